@@ -443,6 +443,7 @@ def generate(rng, tier):
         elif r < 0.4 and d['ptype'] == 1:
             opts['host'] = b'override.example:8080'
         cases.append(dict(kind='rebuild', ptype=d['ptype'], raw=d['raw'], opts=opts, wf=(opts == dict(disable=[], for_proxy=False, host=None)),
+                          fp=bool(opts['for_proxy'] and d.get('host') and d.get('port')),
                           meta=dict(framing=d['framing'], body=d['body'], nheaders=len(d['headers']))))
     for i in range(60 if quick else 2500):
         d = H.gen_message(rng)
@@ -692,6 +693,17 @@ def oracle(case, out):
             return 'h11 reads another body'
         return None
     if k == 'rebuild':
+        if case.get('fp') and 'first' in out and out['first']['state'] == 6:
+            # build(for_proxy=True): the absolute-form (or authority-form) target must lead back to the same origin
+            if 'err' in out:
+                return 'build(for_proxy=True) raised %s on a complete request that names its origin' % out['exc']
+            p, q = out['first'], out['second']
+            if 'err' in q or q['state'] != 6:
+                return 'request rebuilt for an upstream proxy does not parse to a complete message'
+            if (p['host'], p['port']) != (q['host'], q['port']) or (not p['tunnel'] and (p['path'] or b'/') != (q['path'] or b'/')):
+                return 'request rebuilt for an upstream proxy names %r, the original named %r' % (
+                    (q['host'], q['port'], q['path']), (p['host'], p['port'], p['path']))
+            return None
         if not case['wf'] or 'err' in out:
             if case['wf'] and 'err' in out:
                 return 'well-formed message: %s' % out['exc']
@@ -712,7 +724,9 @@ def oracle(case, out):
         hp, hq = p['headers'] or [], q['headers'] or []
         if case['ptype'] == 2 and len(hq) == len(hp) + 1 and hq[-1] == (b'content-length', b'Content-Length', b'0'):
             hq = hq[:-1]        # build_response states the (empty) length of a message that had no framing header
-        if hp != hq:
+        def canon(h):   # a Content-Length value is a number: `05` may come back as `5`
+            return [(a, b, (b'%d' % int(c)) if a == b'content-length' and c.isdigit() else c) for a, b, c in h]
+        if canon(hp) != canon(hq):
             return 'headers change on rebuild: %r -> %r' % (hp, hq)
         if (p['body'] or b'') != case['meta']['body']:
             return 'decoded body differs from what was sent'
